@@ -525,7 +525,7 @@ func (b *band) getCFListChannels() *lorawan.CFList {
 		}
 	}
 
-	if pl.Channels[0] == 0 {
+	if pl.Channels == [5]uint32{} {
 		return nil
 	}
 
